@@ -24,6 +24,10 @@ def scenarios(tier):
     sc.append(hc.scen("f_time_T2", BASE[2], T=2, ck=2, tt=3, p=1, fine="gvt,sync", j=4, deadline=dl, budget=B))
     sc.append(hc.scen("c_pred_p2", BASE[0], T=2, ck=2, p=2, j=8, deadline=dl, budget=B))
     sc.append(hc.scen("c_gp1_T2", BASE[0], T=2, ck=2, gp=1, p=1, fine="gvt", j=4, deadline=dl, budget=B))
+    # fewer LPs than requested threads, predicates hold early while the model keeps producing events: the run must end promptly
+    sc.append(hc.scen("prompt_L1T2", T(1, [1], [1, 1, 1], P=5, K=3, H=300), T=2, ck=2, p=1, j=2, deadline=dl, budget=B, extra=["prompt=150"]))
+    sc.append(hc.scen("prompt_L2T3", T(2, [1, 2], [2, 1, 2], P=5, K=3, H=200), T=3, ck=2, p=1, j=2, deadline=dl, budget=B, extra=["prompt=150"]))
+    sc.append(hc.scen("prompt_L3T2", T(3, [1, 2, 1], [2, 1, 1], P=5, K=3, H=150), T=2, ck=2, p=0, j=1, deadline=dl, budget=B, extra=["prompt=200"]))
     # RootsimStop from a handler and from an external thread placed at every point
     sc.append(hc.scen("stop_handler", T(2, [2, 1], [2, 1, 2], P=4, K=0, H=12, S=3), T=2, ck=2, p=1, fine="gvt", j=4, deadline=dl, budget=B))
     for x in ((0, 3, 9, 20) if tier == "quick" else (0, 1, 2, 3, 5, 9, 14, 20, 30)):
